@@ -10,10 +10,14 @@ from . import ptq
 def main():
     for line in sys.stdin:
         job = json.loads(line)
-        pcfg = ptq.load_pcfg(job['dir'], **job.get('flags', {}))
-        hist = ptq.run_history(pcfg, [], with_queue=False, max_pops=job.get('max_pops'))
-        p, _ = ptq.to_traces(0, pcfg, hist, 'C01', exact=job.get('exact', True))
-        sys.stdout.write(json.dumps(p['sess'][0]['ev']) + '\n')
+        try:
+            pcfg = ptq.load_pcfg(job['dir'], **job.get('flags', {}))
+            hist = ptq.run_history(pcfg, [], with_queue=False, max_pops=job.get('max_pops'))
+            p, _ = ptq.to_traces(0, pcfg, hist, 'C01', exact=job.get('exact', True))
+            sys.stdout.write(json.dumps(p['sess'][0]['ev']) + '\n')
+        except Exception as ex:
+            # (the history cannot be expressed over the grammar's grid, or the code raised: the second run is not the first)
+            sys.stdout.write(json.dumps([['second run failed', repr(ex)[:120]]]) + '\n')
         sys.stdout.flush()
 
 
